@@ -1088,6 +1088,9 @@ func (in *Interp) binop(op string, l, r Value) Value {
 		ls, ok1 := in.concatStr(l)
 		rs, ok2 := in.concatStr(r)
 		if ok1 && ok2 {
+			if len(ls)+len(rs) > 1<<18 {
+				unspecified("string longer than the modelled range")
+			}
 			return ls + rs
 		}
 		h := in.metaField(l, "__concat")
